@@ -259,7 +259,7 @@ def job_inner(j):
                     continue
                 s = z3.Solver()
                 for k, (kind, bits, term) in ob.nondet.items():
-                    if kind != 'real':
+                    if kind != 'real' and k in vals:
                         s.add(term == vals[k])
                 s.add(p)
                 if s.check() == z3.sat:
